@@ -98,6 +98,12 @@ impl<TT: ?Sized> zeroize::Zeroize for Z<TT> { fn zeroize(&mut self) { LOG.with(|
 impl<TT: ?Sized> Drop for Z<TT> { fn drop(&mut self) { LOG.with(|l| l.borrow_mut().push(100 + self.0)); } }
 impl<TT: ?Sized> Clone for Z<TT> { fn clone(&self) -> Self { LOG.with(|l| l.borrow_mut().push(self.0)); Z(self.0, PhantomData) } }
 impl<TT: ?Sized> fmt::Debug for Z<TT> { fn fmt(&self, f: &mut fmt::Formatter<'_>) -> fmt::Result { write!(f, "{}", self.0) } }
+impl<TT: ?Sized> PartialEq for Z<TT> { fn eq(&self, o: &Self) -> bool { self.0 != 3 && self.0 == o.0 } }
+impl<TT: ?Sized> Eq for Z<TT> {}
+impl<TT: ?Sized> PartialOrd for Z<TT> { fn partial_cmp(&self, o: &Self) -> Option<Ordering> { if self.0 == 3 || o.0 == 3 { None } else { Some(self.0.cmp(&o.0)) } } }
+impl<TT: ?Sized> Ord for Z<TT> { fn cmp(&self, o: &Self) -> Ordering { self.0.cmp(&o.0) } }
+impl<TT: ?Sized> Hash for Z<TT> { fn hash<H: Hasher>(&self, s: &mut H) { s.write_u8(self.0) } }
+impl<TT: ?Sized> Default for Z<TT> { fn default() -> Self { Z(0, PhantomData) } }
 '''
 
 
@@ -135,8 +141,8 @@ def probe_supported(it, zeroize):
     if zeroize:
         if not (ts & {'Zeroize', 'ZeroizeOnDrop'}):
             return False
-        if ts & {'Copy', 'PartialEq', 'PartialOrd', 'Eq', 'Ord', 'Hash', 'Default'}:
-            return False
+        if 'Copy' in ts:
+            return False        # the zeroize probe type logs its drop, so it cannot be Copy
     else:
         if ts & {'Zeroize', 'ZeroizeOnDrop'}:
             return False
